@@ -450,4 +450,5 @@ func runC07(r *mon.Run) {
 		}
 		_ = secp256k1.ScalarSize
 	})
+	runColdStart(r, "c07", r.N(18, 300), "verify", "btcverify", "recover")
 }
